@@ -59,12 +59,14 @@ def stage_build(prop, modules=None):
 def stage_audit(prop, modules=None):
     """B: axioms of every property theorem, forbidden tokens in the sources it depends on."""
     mods = ["Simpleline.Props." + m for m in (modules or [prop])]
-    theorems = []; files = []; namespaces = ["Simpleline"]
+    theorems = []; files = []; per_mod = []
     for module in mods:
         src = open(os.path.join(LEAN, module.replace(".", "/") + ".lean")).read()
+        namespaces = ["Simpleline"]
         for ns in re.findall(r"^namespace\s+([\w.]+)", strip_comments(src), re.M):
             if ns not in namespaces: namespaces.append(ns)
-        theorems += re.findall(r"^theorem\s+([\w.'?!]+)", strip_comments(src), re.M)
+        ths = re.findall(r"^theorem\s+([\w.'?!]+)", strip_comments(src), re.M)
+        theorems += ths; per_mod.append((module, namespaces, ths))
         for f in lean_imports(module):
             if f not in files: files.append(f)
     problems = []
@@ -73,19 +75,21 @@ def stage_audit(prop, modules=None):
         for m in FORBIDDEN.finditer(body):
             problems.append("%s: forbidden token %r" % (f, m.group(0).strip()))
     os.makedirs(OUT, exist_ok=True)
-    audit = os.path.join(OUT, "Audit_%s.lean" % prop)
-    with open(audit, "w") as fh:
-        fh.write("".join("import %s\n" % m for m in mods) + "open " + " ".join(namespaces) + "\n")
-        for t in theorems:
-            fh.write("#print axioms %s\n" % t)
-    rc, out = sh(["lake", "env", "lean", audit], cwd=LEAN)
     axioms = {}
-    if rc != 0:
-        problems.append("audit file does not check: " + out[-1500:])
-    for m in re.finditer(r"'([\w.'?!]+)' depends on axioms: \[([^\]]*)\]", out.replace("\n", " ")):
-        axioms[m.group(1).split(".")[-1]] = sorted(a.strip() for a in m.group(2).split(",") if a.strip())
-    for m in re.finditer(r"'([\w.'?!]+)' does not depend on any axioms", out):
-        axioms[m.group(1).split(".")[-1]] = []
+    # one audit file per property file (the files of one property need not be importable together: helper developments may reuse names)
+    for module, namespaces, ths in per_mod:
+        audit = os.path.join(OUT, "Audit_%s_%s.lean" % (prop, module.split(".")[-1]))
+        with open(audit, "w") as fh:
+            fh.write("import %s\n" % module + "open " + " ".join(namespaces) + "\n")
+            for t in ths:
+                fh.write("#print axioms %s\n" % t)
+        rc, out = sh(["lake", "env", "lean", audit], cwd=LEAN)
+        if rc != 0:
+            problems.append("audit file of %s does not check: %s" % (module, out[-1500:]))
+        for m in re.finditer(r"'([\w.'?!]+)' depends on axioms: \[([^\]]*)\]", out.replace("\n", " ")):
+            axioms[m.group(1).split(".")[-1]] = sorted(a.strip() for a in m.group(2).split(",") if a.strip())
+        for m in re.finditer(r"'([\w.'?!]+)' does not depend on any axioms", out):
+            axioms[m.group(1).split(".")[-1]] = []
     for t in theorems:
         if t not in axioms:
             problems.append("no axiom report for theorem " + t)
